@@ -149,6 +149,10 @@ MUTANTS = [
     # ---------------- (d) short reads ----------------
     {"id": "C14-orig-short-read", "prop": "C14", "expect": "SHORT-READ/decoder::Base64Decoder::<R>::buffer_fill/short-read-is-error",
      "edits": [("src/decoder.rs", READ_NOW, READ_ORIG)]},
+    {"id": "C14-orig-short-read-match", "prop": "C14", "expect": "SHORT-READ/decoder::Base64Decoder::<R>::buffer_fill/short-read-is-error",
+     "edits": [("src/decoder.rs", READ_NOW + "                " + LEN_ERR + "\n            }\n",
+                "            match self.read.read(&mut input)? {\n                0 => break,\n                4 => {}\n                _ => {\n"
+                "                    " + LEN_ERR + "\n                }\n            }\n")]},
     {"id": "C14-half-fix-no-retry-loop", "prop": "C14", "expect": "SHORT-READ/decoder::Base64Decoder::<R>::buffer_fill/partial-count-without-retry-loop",
      "edits": [("src/decoder.rs", READ_NOW, READ_HALF_FIXED)]},
     {"id": "C14-retry-loop-stops-at-2", "prop": "C14", "expect": "SHORT-READ/decoder::Base64Decoder::<R>::buffer_fill/partial-count-without-retry-loop",
